@@ -137,6 +137,121 @@ def replay_phonon(chk, rng, kw, keys, name):
     chk.harness_error("C13 phonon: '%s' did not reproduce" % name)
 
 
+def lattice_scale(chk, tier, rng):
+    """Lattice parameters in another unit: the three columns of the lattice block multiplied by one symbolic positive factor s (bohr, Angstrom,
+    nm, cm, m ...).  The real get_axial_strains runs on symbolic axis lengths L and on s*L (concrete volumes, exact least squares); every
+    comparison it makes on the data (a tolerance test such as allclose) is decided by the solver and forks; on every path z3 must show the
+    strain fractions of s*L equal those of L."""
+    import cij.core.full_modulus as fm
+    import cij.io.traditional.elast_dat as ed
+    chk.encode(fm.FullThermalElasticModulus.get_axial_strains)
+    nvol = 5
+    vols = [Fraction(400 - 25 * i) for i in range(nvol)]
+    v_array = numpy.array([405.0, 360.0, 310.0])
+    ctx = new_context()
+    L = [[ctx.var("L_%d_%d" % (i, a), positive=True) for a in range(3)] for i in range(nvol)]
+    sc = ctx.var("scale", positive=True)
+
+    def polyfit_exact(x, y, deg, rcond=None, full=False, w=None, cov=False):
+        if full or cov:
+            raise SymError("polyfit stub: full/cov output not modelled")
+        na = numpy.vander(numpy.asarray(x, dtype=float), deg + 1)
+        yy = numpy.asarray(y, dtype=object)
+        if w is not None:
+            wf = numpy.asarray(w, dtype=float)
+            na = na * wf[:, None]
+            yy = yy * wf
+        coef, res, rank, sv = exact_lstsq(na, yy)
+        return coef
+
+    def strains_of(lat):
+        proxy = NumpyProxy()            # close_mode "solver": a tolerance test on the data is a branch the solver decides
+        proxy.polyfit_impl = polyfit_exact
+        obj = object.__new__(fm.FullThermalElasticModulus)
+        obj.calculator = PC.Obj()
+        obj.calculator.v_array = v_array
+        obj.elast_data = ed.ElastData(float(vols[0]), nvol, 100.0, [ed.ElastVolumeData(float(v), {}) for v in vols], [tuple(r) for r in lat])
+        with patched((fm, {"numpy": proxy})):
+            return numpy.asarray(obj.get_axial_strains(), dtype=object)
+
+    def fn():
+        return strains_of(L), strains_of([[sc * x for x in row] for row in L])
+    t0 = time.time()
+    ex = X.Explorer(max_paths=64, name="C13:lattice-scale", decision_timeout_ms=8000)
+    try:
+        paths = ex.run(fn)
+    except (SymError, X.PathBudgetExceeded) as e:
+        chk.inconclusive("lattice scale", str(e))
+        return
+    bad = None
+    for p in paths:
+        if p.feasibility_unknown:
+            chk.inconclusive("lattice scale", "a branch feasibility query returned unknown")
+        pc = p.path_condition()
+        if p.exception is not None:
+            bad = ("raises %s: %s" % (type(p.exception).__name__, p.exception), None)
+            break
+        a, b = p.result
+        if a.shape != b.shape:
+            bad = ("shape of the strain fractions changes with the unit of the lattice parameters", None)
+            break
+        for x, y in zip(a.ravel().tolist(), b.ravel().tolist()):
+            x, y = Sym.of(x), Sym.of(y)
+            if x.same(y):
+                continue
+            v, env = Z.prove_equal(x, y, name="C13:lattice-scale", conds=pc, timeout_ms=20000)
+            if v == "sat":
+                bad = ("strain fractions change when all lattice parameters are multiplied by one factor", env)
+                break
+            if v != "unsat":
+                chk.inconclusive("lattice scale", "identity undecided on one path")
+        if bad:
+            break
+    chk.obligation("lattice parameters x one symbolic positive factor (another length unit): get_axial_strains returns the same strain fractions "
+                   "on every path of its data-dependent tests [%d paths, %d volumes, solver-decided allclose]" % (len(paths), nvol),
+                   "unsat" if not bad else "sat", seconds=round(time.time() - t0, 2), kind="identity", detail=bad[0] if bad else None)
+    if bad:
+        replay_lattice_scale(chk, fm, ed, bad[0], bad[1], vols, v_array)
+
+
+def replay_lattice_scale(chk, fm, ed, what, env, vols, v_array):
+    """Concrete: the real get_axial_strains on the solver's lattice parameters (or a default anisotropic cell) and on a family of unit factors."""
+    nvol = len(vols)
+    lat = None
+    scales = [0.529177, 10.0, 0.1, 1e-8, 1e-10, 1e8]
+    if env:
+        try:
+            lat = [[float(env["L_%d_%d" % (i, a)]) for a in range(3)] for i in range(nvol)]
+            scales = [float(env["scale"])] + scales
+        except Exception:
+            lat = None
+    cands = ([lat] if lat else []) + [[[5.0 - 0.10 * i, 5.2 - 0.06 * i, 13.0 - 0.45 * i] for i in range(nvol)]]
+
+    def run(rows):
+        obj = object.__new__(fm.FullThermalElasticModulus)
+        obj.calculator = PC.Obj()
+        obj.calculator.v_array = v_array
+        obj.elast_data = ed.ElastData(float(vols[0]), nvol, 100.0, [ed.ElastVolumeData(float(v), {}) for v in vols], [tuple(r) for r in rows])
+        return numpy.asarray(obj.get_axial_strains(), dtype=float)
+    for rows in cands:
+        try:
+            base = run(rows)
+            if not numpy.all(numpy.isfinite(base)):
+                continue
+            for f in scales:
+                got = run([[f * x for x in r] for r in rows])
+                dev = numpy.abs(got - base).max()
+                if not dev <= 1e-7:
+                    chk.violation("lattice:unit", "the strain fractions change by %.3g when every lattice parameter is multiplied by %g (the same cell in "
+                                  "another length unit): first row %s instead of %s" % (dev, f, got[0].tolist(), base[0].tolist()),
+                                  dict(lattice=rows, factor=f))
+                    return
+        except Exception as e:
+            chk.violation("lattice:unit:raises", "get_axial_strains raises %s: %s on a rescaled lattice block" % (type(e).__name__, str(e)[:120]), {})
+            return
+    chk.harness_error("C13 lattice scale: '%s' did not reproduce" % what)
+
+
 def static_side(chk, tier, rng):
     """Row order of the static table (row 0 = strain reference stays first), column order / case."""
     import cij.core.full_modulus as fm
@@ -872,6 +987,7 @@ def main():
     rng = random.Random(seed() + 13)
     phonon_side(chk, tier, rng)
     static_side(chk, tier, rng)
+    lattice_scale(chk, tier, rng)
     static_reader_side(chk, tier, rng)
     phonon_volume_order(chk, tier, rng)
     static_rows_handover(chk, tier, rng)
